@@ -250,6 +250,7 @@ def slice_with_newaxes(x, index):
     # Strip Nones from index
     index2 = tuple(ind for ind in index if ind is not None)
     where_none = [i for i, ind in enumerate(index) if ind is None]
+    where_none_orig = list(where_none)
     for i, xx in enumerate(where_none):
         n = sum(isinstance(ind, Integral) for ind in index[:xx])
         if n:
@@ -260,7 +261,7 @@ def slice_with_newaxes(x, index):
 
     if where_none:
         return SlicesWrapNone(
-            x.array, x.index, x.allow_getitem_optimization, where_none
+            x.array, x.index, x.allow_getitem_optimization, where_none, where_none_orig
         )
 
     else:
@@ -430,7 +431,13 @@ class SliceSlicesIntegers(Slice):
 
 
 class SlicesWrapNone(SliceSlicesIntegers):
-    _parameters = ["array", "index", "allow_getitem_optimization", "where_none"]
+    _parameters = [
+        "array",
+        "index",
+        "allow_getitem_optimization",
+        "where_none",
+        "where_none_orig",
+    ]
 
     @functools.cached_property
     def chunks(self):
@@ -443,8 +450,9 @@ class SlicesWrapNone(SliceSlicesIntegers):
     def _layer(self) -> dict:
         dsk = super()._layer()
 
-        where_none_orig = list(self.where_none)
-        expand_orig = expander(where_none_orig)
+        # positions of the Nones in the index as written (``where_none`` is shifted
+        # left by the integers before them, which matters for keys and chunks only)
+        expand_orig = expander(list(self.where_none_orig))
 
         # Insert ",0" into the key:  ('x', 2, 3) -> ('x', 0, 2, 0, 3)
         dsk2: dict = {}
